@@ -11,6 +11,10 @@ func main() {
 	switch os.Args[1] {
 	case "registry":
 		registryMain(os.Args[2:])
+	case "reentry":
+		reentryMain(os.Args[2:])
+	case "race":
+		raceMain(os.Args[2:])
 	case "dispatch":
 		dispatchMain(os.Args[2:])
 	case "gated":
